@@ -69,6 +69,31 @@ pub struct Srv {
     pub reqs: Vec<u32>,    // request ids seen in events (open or not)
     pub streams: Vec<u32>, // stream ids returned by createStream
     pub connected: bool,
+    pub wire: Option<WireLog>,
+    pub clock_mode: u64,
+}
+
+pub fn packets_of(rs: &[ServerSessionResult]) -> Vec<&rml_rtmp::chunk_io::Packet> {
+    rs.iter().filter_map(|r| if let ServerSessionResult::OutboundResponse(p) = r { Some(p) } else { None }).collect()
+}
+
+/// Uptime schedule for C18: every threshold (2^24 ms extended timestamp, 2^32 ms wrap) is crossed
+/// between two consecutive calls, with equal / +1 / huge / backward steps.
+pub fn next_clock(rng: &mut Rng, clock: u64, mode: u64) -> u64 {
+    if mode == 0 {
+        return clock + 3;
+    }
+    match rng.below(12) {
+        0 => clock,
+        1 => clock + 1,
+        2 => clock + 0xFFFFFE,
+        3 => clock + 0xFFFFFF,
+        4 => clock + 0x1000000,
+        5 => clock.saturating_sub(*rng.pick(&[1u64, 5, 0x1000000])),
+        6 => *rng.pick(&[0u64, (1 << 24) - 2, (1 << 24) - 1, 1 << 24, (1 << 24) + 1, (1u64 << 31) - 1, 1u64 << 31, (1u64 << 32) - 1, 1u64 << 32, (1u64 << 32) + 1, 3u64 << 32]),
+        7 => clock + 0x7FFFFFFF,
+        _ => clock + rng.range(1, 50),
+    }
 }
 
 pub fn results_json(peer: &mut Peer, rs: &[ServerSessionResult]) -> Vec<Value> {
@@ -85,12 +110,18 @@ pub fn results_json(peer: &mut Peer, rs: &[ServerSessionResult]) -> Vec<Value> {
 
 impl Srv {
     pub fn new(cfg: ServerSessionConfig, clock: u64) -> (Srv, Value) {
+        Srv::new_wired(cfg, clock, None)
+    }
+
+    pub fn new_wired(cfg: ServerSessionConfig, clock: u64, wire: Option<WireLog>) -> (Srv, Value) {
         rml_rtmp::verif::set_clock(Some(clock));
         let cfgj = json!({"cs":cfg.chunk_size,"win":w(cfg.window_ack_size),"bw":w(cfg.peer_bandwidth),"bwdone":cfg.send_on_bw_done_message_on_start});
+        rml_rtmp::verif::tap_start(true);
         let (s, rs) = ServerSession::new(cfg).expect("server session");
         let mut peer = Peer::new();
         let results = results_json(&mut peer, &rs);
-        let srv = Srv { s, peer, clock, reqs: vec![], streams: vec![], connected: false };
+        let mut srv = Srv { s, peer, clock, reqs: vec![], streams: vec![], connected: false, wire, clock_mode: 0 };
+        srv.wire_record(&rs);
         let ev = json!({"ev":"New","cfg":cfgj,"res":"ok","results":results,"probe":probe_json(&srv.s)});
         (srv, ev)
     }
@@ -113,10 +144,26 @@ impl Srv {
         }
     }
 
+    pub fn tick(&mut self, rng: &mut Rng) {
+        self.clock = next_clock(rng, self.clock, self.clock_mode);
+    }
+
+    fn wire_record(&mut self, rs: &[ServerSessionResult]) {
+        let taps = rml_rtmp::verif::tap_drain();
+        if let Some(wl) = self.wire.as_mut() {
+            wl.record(&packets_of(rs), taps);
+        }
+    }
+
     pub fn input(&mut self, desc: Value, bytes: &[u8]) -> Value {
-        self.clock += 3;
+        if self.clock_mode == 0 { self.clock += 3; }
         rml_rtmp::verif::set_clock(Some(self.clock));
+        let _ = rml_rtmp::verif::tap_drain();
         let r = catch_unwind(AssertUnwindSafe(|| self.s.handle_input(bytes)));
+        match &r {
+            Ok(Ok(rs)) => self.wire_record(rs),
+            _ => self.wire_record(&[]),
+        }
         let (res, results) = match r {
             Ok(Ok(rs)) => ("ok".to_string(), results_json(&mut self.peer, &rs)),
             Ok(Err(e)) => (format!("err:{:?}", e), vec![]),
@@ -127,10 +174,17 @@ impl Srv {
     }
 
     pub fn call(&mut self, desc: Value, f: &mut dyn FnMut(&mut ServerSession) -> Result<Vec<ServerSessionResult>, String>) -> Value {
-        self.clock += 3;
+        if self.clock_mode == 0 { self.clock += 3; }
         rml_rtmp::verif::set_clock(Some(self.clock));
-        let s = &mut self.s;
-        let r = catch_unwind(AssertUnwindSafe(|| f(s)));
+        let _ = rml_rtmp::verif::tap_drain();
+        let r = {
+            let s = &mut self.s;
+            catch_unwind(AssertUnwindSafe(|| f(s)))
+        };
+        match &r {
+            Ok(Ok(rs)) => self.wire_record(rs),
+            _ => self.wire_record(&[]),
+        }
         let (res, results) = match r {
             Ok(Ok(rs)) => ("ok".to_string(), results_json(&mut self.peer, &rs)),
             Ok(Err(e)) => (format!("err:{}", e), vec![]),
@@ -372,11 +426,23 @@ pub fn generate(kind: &str, tier: &str, seed: u64, shard: u64, nshards: u64, pat
     let mut rng = Rng::new(seed ^ shard.wrapping_mul(0x2545F491) ^ 909);
     let nruns = (if tier == "thorough" { 2400 } else { 400 }) / nshards as usize + 1;
     let mut steps = 0usize;
+    let wired = kind == "wire";
+    let mut wt = if wired { Some(Trace::create(&format!("{}.wire", path))) } else { None };
+    let mut wc0 = 0usize;
+    let mut packets = 0usize;
+    let mut lost = 0usize;
     for r in 0..nruns {
-        let (mut srv, ev) = Srv::new(gen_config(&mut rng), *rng.pick(&[0u64, 5, 1000]));
+        let cfg = gen_config(&mut rng);
+        let small_cs = cfg.chunk_size < 128;
+        let wl = wt.as_ref().map(|t| WireLog { run: crate::chunk::Run::new(t, "all", true), lost: 0, packets: 0 });
+        let start = if wired { *rng.pick(&[0u64, (1 << 24) - 3, (1u64 << 32) - 4, 1000]) } else { *rng.pick(&[0u64, 5, 1000]) };
+        let (mut srv, ev) = Srv::new_wired(cfg, start, wl);
+        srv.clock_mode = if wired { 1 } else { 0 };
         t.emit(&ev);
         let padlens: Vec<usize> = if kind == "ack" {
             vec![0, 1, 2, 3, 5, 16, 17, 100, 4095, 4096, 4097]
+        } else if wired && small_cs {
+            vec![0, 1, 2, 5, 31, 64]
         } else {
             vec![0, 1, 5, 127, 128, 129, 4096, 5000]
         };
@@ -390,6 +456,7 @@ pub fn generate(kind: &str, tier: &str, seed: u64, shard: u64, nshards: u64, pat
         let n = rng.range(5, 40);
         let mut prev_probe = probe_json(&srv.s);
         for _ in 0..n {
+            srv.tick(&mut rng);
             let e = random_step(&mut rng, &mut srv, &padlens);
             // a panic poisons the session; an Err from handle_input may have discarded packets that
             // were already serialized (finding K1, judged under C18), after which the peer decoder
@@ -402,7 +469,15 @@ pub fn generate(kind: &str, tier: &str, seed: u64, shard: u64, nshards: u64, pat
                 break;
             }
         }
+        if let (Some(wl), Some(w)) = (srv.wire.take(), wt.as_mut()) {
+            packets += wl.packets;
+            lost += wl.lost;
+            wl.run.finish(w, &mut wc0, false);
+        }
     }
     t.flush();
-    json!({"kind":kind,"runs":nruns,"steps":steps,"lines":t.line,"path":path})
+    if let Some(w) = wt.as_mut() {
+        w.flush();
+    }
+    json!({"kind":kind,"runs":nruns,"steps":steps,"lines":t.line,"path":path,"packets":packets,"lost":lost})
 }
